@@ -94,6 +94,16 @@ func collectWrites(info *types.Info, body ast.Node) []writeSite {
 				add(x.Args[0], x.Pos(), "clear()")
 				return true
 			}
+			// arbitrary-precision complex arithmetic, also through a method value held in a local (mul := m.Mul):
+			// (a, b, c): c = a op b
+			if f := calleeFunc(info, x); f != nil && f.Pkg() != nil && strings.HasSuffix(f.Pkg().Path(), "utils/bignum") && (f.Name() == "Mul" || f.Name() == "Quo") && len(x.Args) == 3 {
+				if sig, ok := f.Type().(*types.Signature); ok && sig.Recv() != nil {
+					if nm := namedOf(sig.Recv().Type()); nm != nil && nm.Obj().Name() == "ComplexMultiplier" {
+						add(x.Args[2], x.Pos(), "destination of ComplexMultiplier."+f.Name())
+						return true
+					}
+				}
+			}
 			sel, ok := unparen(x.Fun).(*ast.SelectorExpr)
 			if !ok {
 				return true
